@@ -380,6 +380,7 @@ pub fn signame(s: i32) -> &'static str {
         libc::SIGFPE => "SIGFPE",
         libc::SIGABRT => "SIGABRT",
         libc::SIGALRM => "SIGALRM(hang)",
+        libc::SIGXCPU => "SIGALRM(hang)", // the CPU-time limit of in_child: same verdict, same signature
         libc::SIGKILL => "SIGKILL",
         libc::SIGTRAP => "SIGTRAP",
         _ => "SIG?",
@@ -413,7 +414,12 @@ pub fn in_child(alarm_s: u32, f: impl FnOnce() -> Vec<u8>) -> ChildEnd {
             for s in [libc::SIGSEGV, libc::SIGBUS, libc::SIGILL, libc::SIGFPE, libc::SIGABRT, libc::SIGALRM] {
                 libc::signal(s, libc::SIG_DFL);
             }
-            libc::alarm(alarm_s);
+            // the limit is on the child's CPU time (SIGXCPU), so that a loaded machine cannot turn a
+            // slow group into a "hang"; the wall-clock alarm is a distant backstop
+            let lim = libc::rlimit { rlim_cur: alarm_s as u64, rlim_max: alarm_s as u64 + 5 };
+            libc::setrlimit(libc::RLIMIT_CPU, &lim);
+            libc::signal(libc::SIGXCPU, libc::SIG_DFL);
+            libc::alarm(alarm_s.saturating_mul(20));
             let out = match std::panic::catch_unwind(std::panic::AssertUnwindSafe(f)) {
                 Ok(v) => v,
                 Err(_) => {
